@@ -413,6 +413,24 @@ def _add_violation(res, counts, v, per_key=12):
         res.violations.append(v)
 
 
+def _part_tree(name, **kw):
+    """A typed tree whose nodes are instances of a TypedNode subclass that declares __slots__ of its own (the pattern the
+    library's own node classes use): still a typed tree for every exporter."""
+    from nutree.typed_tree import TypedNode, TypedTree
+
+    class PartNode(TypedNode):
+        __slots__ = ("extra",)
+
+    return TypedTree(name, factory=PartNode, **kw)
+
+
+def _build(spec):
+    """typed specs with an odd number of nodes are built over the custom node class"""
+    if spec.typed and len(spec.nodes) % 2 == 1:
+        return gen.build(spec, tree_cls=_part_tree)
+    return gen.build(spec)
+
+
 def _chunk(chunk, prop):
     res = Result(prop)
     counts: dict = {}
@@ -420,7 +438,7 @@ def _chunk(chunk, prop):
     try:
         for spec in chunk:
             try:
-                tree, nodes = gen.build(spec)
+                tree, nodes = _build(spec)
                 before = view.obs(tree)
                 for start in range(-1, len(nodes)):
                     failed_with_self = set()
@@ -520,7 +538,7 @@ def run(prop: str, tier: str, only=None) -> Result:
 
 def replay(witness: dict, prop: str) -> list[tuple[str, str]]:
     spec = spec_from_json(witness["spec"])
-    tree, _ = gen.build(spec)
+    tree, _ = _build(spec)
     tmpdir = tempfile.mkdtemp(prefix="verif_c17_")
     try:
         diffs = export_and_check(tree, witness["start"], witness["format"], witness["unique_nodes"], witness["add_self"], tmpdir)
